@@ -164,24 +164,40 @@ StepTRecv(s, e) ==
 
 StepTimeout(s, e) ==
   IF ~s.call.active \/ ~s.sockOpen THEN Fail(s, "C08.transport_touched_outside_call")
+  ELSE IF "pos" \in DOMAIN e /\ e.pos # s.taken THEN Fail(s, "C03.bytes_consumed_outside_the_calls")
   ELSE IF s.failed THEN Res([s EXCEPT !.due = <<DRaise("Timeout")>>], TRUE, "")
   ELSE IF s.due # <<>> THEN Fail(s, "C03.outcome_delayed_by_read")
   ELSE Res([s EXCEPT !.due = <<DRaise("Timeout")>>], TRUE, "")
 
+\* non-blocking transport (timeout 0): "would block" is the transport's own error, nothing is consumed or lost
+StepAgain(s, e) ==
+  IF ~s.call.active \/ ~s.sockOpen THEN Fail(s, "C08.transport_touched_outside_call")
+  ELSE IF "pos" \in DOMAIN e /\ e.pos # s.taken THEN Fail(s, "C03.bytes_consumed_outside_the_calls")
+  ELSE IF ~s.failed /\ s.due # <<>> THEN Fail(s, "C03.outcome_delayed_by_read")
+  ELSE Res([s EXCEPT !.due = <<DRaise("Transport")>>], TRUE, "")
+
 StepEof(s, e) ==
   IF ~s.call.active \/ ~s.sockOpen THEN Fail(s, "C08.transport_touched_outside_call")
+  ELSE IF "pos" \in DOMAIN e /\ e.pos # s.taken THEN Fail(s, "C03.bytes_consumed_outside_the_calls")
   ELSE IF ~s.failed /\ s.due # <<>> THEN Fail(s, "C03.outcome_delayed_by_read")
   ELSE Res([s EXCEPT !.due = <<DRaise("Closed")>>, !.eof = TRUE, !.sockOpen = FALSE, !.connected = FALSE], TRUE, "")
 
 StepTErr(s, e) ==
   IF ~s.call.active \/ ~s.sockOpen THEN Fail(s, "C08.transport_touched_outside_call")
+  ELSE IF "pos" \in DOMAIN e /\ e.pos # s.taken THEN Fail(s, "C03.bytes_consumed_outside_the_calls")
   ELSE IF ~s.failed /\ s.due # <<>> THEN Fail(s, "C03.outcome_delayed_by_read")
   ELSE Res([s EXCEPT !.due = <<DRaise("Transport")>>], TRUE, "")
+
+\* the clause for "an illegal frame was treated as legal": an ill-formed close reason belongs to C06
+AcceptedClause(s) ==
+  IF s.faults # <<>> /\ s.faults[Len(s.faults)][2] = {"close_reason_utf8"} THEN "C06.ill_formed_close_reason_accepted"
+  ELSE "C05.illegal_frame_accepted"
 
 StepTSend(s, e) ==
   LET f == Parse(e.bytes, 1) IN
   IF ~s.call.active THEN Fail(s, "C07.write_outside_call")
   ELSE IF s.failed THEN Res(s, TRUE, "")
+  ELSE IF s.due # <<>> /\ Head(s.due).k = "raise" /\ Head(s.due).cls = "Protocol" THEN Fail(s, AcceptedClause(s))
   ELSE IF s.due = <<>> \/ Head(s.due).k # "send" THEN
        Fail(s, IF f.ok /\ f.op = OpPong THEN "C07.unsolicited_or_duplicate_pong"
                ELSE IF f.ok /\ f.op = OpClose THEN "C08.more_than_one_close_frame_on_own_initiative" ELSE "C07.unsolicited_write")
@@ -206,7 +222,7 @@ StepRet(s0, e) ==
   ELSE LET d == Head(s.due) IN
        IF d.k = "send" THEN Fail(s, IF d.op = OpPong THEN "C07.ping_not_answered" ELSE "C08.close_not_answered")
        ELSE IF d.k = "raise" THEN
-            Fail(s, CASE d.cls = "Protocol" -> "C05.illegal_frame_accepted"
+            Fail(s, CASE d.cls = "Protocol" -> AcceptedClause(s)
                       [] d.cls = "Payload"  -> "C06.ill_formed_text_delivered"
                       [] d.cls = "Closed"   -> "C08.returned_after_connection_lost"
                       [] d.cls = "Timeout"  -> "C03.returned_despite_timeout"
@@ -251,6 +267,7 @@ Step(s, e) ==
   CASE e.ev = "call"     -> StepCall(s, e)
     [] e.ev = "trecv"    -> StepTRecv(SkipOpt(s), e)
     [] e.ev = "ttimeout" -> StepTimeout(SkipOpt(s), e)
+    [] e.ev = "tagain"   -> StepAgain(SkipOpt(s), e)
     [] e.ev = "teof"     -> StepEof(SkipOpt(s), e)
     [] e.ev = "terr"     -> StepTErr(SkipOpt(s), e)
     [] e.ev = "tsend"    -> StepTSend(s, e)
